@@ -668,9 +668,14 @@ pub fn drive(ctx: &Ctx) -> Summary {
         if let Ok((items, total)) = &obs.flat_sched {
             exact = items.iter().all(|x| as_int(x.1).is_some() && as_int(x.2).is_some()) && as_int(*total).is_some();
             let summ = quilt_summaries(&obs, frames, &wfs);
-            for f in property_failures(&summ, &obs) {
-                o.violate(Violation::new(&f.0, json!("property C25"), json!({"expanded_block": sched_json(&obs.flat_sched),
-                    "source_block": sched_json(&obs.src_sched)})).note(f.1));
+            if summ.iter().all(|x| x.dur.is_some()) {
+                for f in property_failures(&summ, &obs) {
+                    o.violate(Violation::new(&f.0, json!("property C25"), json!({"expanded_block": sched_json(&obs.flat_sched),
+                        "source_block": sched_json(&obs.src_sched)})).note(f.1));
+                }
+            } else {
+                // the real call computed a schedule although the specification knows no duration: Ok/Err is not judged
+                o.diverge("schedule computed for a block with an instruction without documented duration");
             }
             if !exact && o.violations.is_empty() {
                 o.violate(Violation::new("documented_duration", json!("integer times for integer durations"), sched_json(&obs.flat_sched)));
